@@ -10,6 +10,8 @@ import Vegeta.Model.Plot
     → `ok <nlabels> <labelhex>… <nrows> <width> <bits>…` | `err add <i>` (the i-th Add failed) | `err data` | `panic …`
   rows are printed in canonical order: sorted by X, ties ordered by the rows' bit patterns
   (`sort.Sort` is not stable; the harness canonicalises the real rows the same way).
+* `c17.plotl <threshold> <n> (<attackhex> <seq> <ts> <latency> <labelhex>)×n` → as `c17.plot`, the label of each
+  result given explicitly (a custom `Labeler`)
 * `c17.plotcmd <threshold> <k> (<n> (…)×n)×k` → the `plot` command on `k` result files (round-robin
   decoding, Add each, data): `ok …` as for `c17.plot` | `err` | `panic`
 * `c17.adds <n> (…)×n` → `ok` | `err add <i>` | `panic add <i>`   (only the Adds, no data)
@@ -29,6 +31,15 @@ def result : P Result := do
   let l ← int
   let e ← bool
   pure { attack := a, seq := s, ts := t, latency := l, label := if e then labelERROR else labelOK }
+
+/-- a result with an explicit label (custom `Labeler`) -/
+def resultL : P Result := do
+  let a ← bytes
+  let s ← nat
+  let t ← int
+  let l ← int
+  let lab ← bytes
+  pure { attack := a, seq := s, ts := t, latency := l, label := lab }
 
 def showPoints (ps : List Point) : String :=
   toString ps.length ++ ps.foldl (fun s p => s ++ " " ++ toString p.x.bits ++ " " ++ toString p.y.bits) ""
@@ -73,6 +84,16 @@ def handle (op : String) (args : List String) : Option String :=
     pure ("ok " ++ (if bucketsOK c t then "1" else "0"))
   | "c17.plot" => do
     let ((th, rs), _) ← (do let th ← int; let rs ← listOf result; pure (th, rs)).run args
+    match addAllIdx [] rs 0 with
+    | .inl p =>
+      match Plot.data id p th with
+      | .ok (rows, labels) =>
+        pure ("ok " ++ showBytesList labels ++ " " ++ showRows (canonTies rows []) labels.length)
+      | .error _ => pure "err data"
+      | .panic => pure "panic data"
+    | .inr msg => pure msg
+  | "c17.plotl" => do
+    let ((th, rs), _) ← (do let th ← int; let rs ← listOf resultL; pure (th, rs)).run args
     match addAllIdx [] rs 0 with
     | .inl p =>
       match Plot.data id p th with
